@@ -30,7 +30,7 @@ type spec struct {
 
 var pool []*spec
 var specByName = map[string]*spec{}
-var typeOrder []string            // distinct message types, in pool order
+var typeOrder []string // distinct message types, in pool order
 var specsOfType = map[string][]*spec{}
 
 func add(name string, build func() proto.Message) {
